@@ -25,8 +25,13 @@ def snapshot(t):
     return {k: t.get_ndata(k).copy() for k in COLS}
 
 
+PRUNERS = ["tosub", "tosub", "cutleave", "cuttip", "cuttype", "cutorder"]
+
+
 def make_ops(rng, length):
     ops = []
+    if rng.random() < 0.5:      # prune the freshly built (arbitrarily numbered) tree first: numbering-sensitive code sees an unsorted table
+        ops.append(rng.choice(PRUNERS))
     for _ in range(length):
         ops.append(rng.choice(["sort", "subtree", "tosub", "cutenter", "cutleave", "redirect", "redirect-nosort", "cat", "cuttype", "cutorder", "cuttip",
                                "translate", "scale", "rotate", "rotx", "origin", "normalize", "radius", "smooth", "resample", "roundtrip", "compose", "copy"]))
@@ -42,9 +47,9 @@ class Pipeline(Suite):
         big = tier == "thorough" or widen
         k = 0
         for n in [1, 2, 3, 5, 8, 13, 21] + ([60] if big else []):
-            for _ in range(3 if not big else 8):
+            for _ in range(9 if not big else 24):
                 shape = gen.pick_shape(rng, k); k += 1
-                t = gen.tree_case(rng, n, shape, numbering=rng.choice(["sorted", "root0"]), coords="dyadic", types="mixed")
+                t = gen.tree_case(rng, n, shape, numbering=rng.choice(["sorted", "root0", "root0", "root0"]), coords="dyadic", types="mixed")
                 t["xyz"] = [[c / 16.0 for c in p] for p in t["xyz"]]
                 out.append({"class": shape, "tree": t, "ops": make_ops(rng, rng.randint(2, 8 if not big else 30)), "seed": rng.randrange(10**6)})
         return out
@@ -72,13 +77,16 @@ class Pipeline(Suite):
                 elif op == "subtree":
                     arg = rng.randrange(n); y = get_subtree(cur, arg)
                 elif op == "tosub":
-                    arg = rng.sample(range(1, n), min(n - 1, rng.randint(0, 3))) if n > 1 else []
+                    inner = sorted({int(p) for p in cur.pid() if p > 0})        # prefer nodes that have something below them
+                    pool = inner if inner and rng.random() < 0.7 else list(range(1, n))
+                    arg = rng.sample(pool, min(len(pool), rng.randint(0, 3))) if n > 1 else []
                     y = to_subtree(cur, arg)
                 elif op == "cutenter":
                     d = rng.randint(1, 4); arg = d
                     y = cut_tree(cur, enter=lambda nd, pv: ((0 if pv is None else pv + 1), (0 if pv is None else pv + 1) >= d))
                 elif op == "cutleave":
-                    y = cut_tree(cur, leave=lambda nd, ks: (max([x + 1 for x in ks], default=0), (max([x + 1 for x in ks], default=0) == 0 and nd.id != 0 and nd.id % 2 == 0)))
+                    hcut = rng.choice([0, 1, 2])
+                    y = cut_tree(cur, leave=lambda nd, ks: (max([x + 1 for x in ks], default=0), (max([x + 1 for x in ks], default=0) == hcut and nd.id != 0 and nd.id % 2 == 0)))
                 elif op in ("redirect", "redirect-nosort"):
                     arg = rng.randrange(n); y = redirect_tree(cur, arg, sort=(op == "redirect"))
                     if op == "redirect-nosort":
